@@ -45,4 +45,14 @@ def NoClobber {len n : Nat} (left right : Ref len n) : Prop :=
 /-- `a` is none of the cells of `r` -/
 def Ref.Outside {len n : Nat} (r : Ref len n) (a : Fin len) : Prop := ∀ i : Fin n, r.addr i ≠ a
 
+/-- the cell `a` is outside the target of the statement -/
+def Stmt.TargetOutside {len : Nat} (a : Fin len) : Stmt len → Prop
+  | .add t _ => t.Outside a
+  | .sub t _ => t.Outside a
+  | .mul t _ => t.Outside a
+  | .smul t _ => t.Outside a
+  | .asg t _ => t.Outside a
+  | .ctor t _ => t.Outside a
+  | .set t _ _ => t.Outside a
+
 end Fcppt.C14
